@@ -372,13 +372,16 @@ class Import(WObject):
 
     def import_schema(self, definitions, d):
         """Import schema as <types/> content."""
-        if not definitions.types:
+        # Only a <types/> of the importing WSDL itself gets built with it: the
+        # ones taken over from an imported WSDL have been built already.
+        local = [t for t in definitions.types if t.definitions is definitions]
+        if not local:
             root = Element("types", ns=wsdlns)
             definitions.root.insert(root)
             types = Types(root, definitions)
             definitions.types.append(types)
         else:
-            types = definitions.types[-1]
+            types = local[-1]
         # The schema's own relative locations are relative to its own URL,
         # not to the URL of the WSDL importing it.
         d.root.set("url", d.url)
